@@ -358,7 +358,16 @@ pub fn keys_of<T: El>(s: &[T]) -> Vec<u32> {
 }
 
 /// apply `op` to the bumpalo vector.  `leaked`: ids intentionally leaked by leak-by-design ops.
-pub fn apply_b<'b, T: El>(b: &'b Bump, v: &mut BVec<'b, T>, op: &VOp, slices: &mut Vec<(*const T, usize, Vec<u32>)>) -> Res {
+/// what the bumpalo side keeps alive across later operations
+pub struct Kept<'b, T: El> {
+    /// leaked bump slices (into_bump_slice): contents must stay intact for the arena's lifetime
+    pub slices: Vec<(*const T, usize, Vec<u32>)>,
+    /// boxed slices (into_boxed_slice) held while later operations allocate; at most KEPT_BOXES, oldest dropped first
+    pub boxes: Vec<(bumpalo::boxed::Box<'b, [T]>, Vec<u32>)>,
+}
+pub const KEPT_BOXES: usize = 3;
+
+pub fn apply_b<'b, T: El>(b: &'b Bump, v: &mut BVec<'b, T>, op: &VOp, kept: &mut Kept<'b, T>) -> Res {
     match op {
         VOp::Push(k) => {
             v.push(T::mk(*k));
@@ -615,14 +624,17 @@ pub fn apply_b<'b, T: El>(b: &'b Bump, v: &mut BVec<'b, T>, op: &VOp, slices: &m
                 let s = old.into_bump_slice();
                 (s.as_ptr(), s.len())
             };
-            slices.push((p, n, ks.clone()));
+            kept.slices.push((p, n, ks.clone()));
             Res::Keys(ks)
         }
         VOp::IntoBoxedSlice => {
             let old = std::mem::replace(v, BVec::new_in(b));
             let bx = old.into_boxed_slice();
             let ks = keys_of(&bx);
-            drop(bx);
+            kept.boxes.push((bx, ks.clone()));
+            if kept.boxes.len() > KEPT_BOXES {
+                drop(kept.boxes.remove(0));
+            }
             Res::Keys(ks)
         }
         VOp::FromIterIn(ks) => {
@@ -745,7 +757,7 @@ pub fn apply_b<'b, T: El>(b: &'b Bump, v: &mut BVec<'b, T>, op: &VOp, slices: &m
 }
 
 /// the reference program on std's Vec
-pub fn apply_s<T: El>(v: &mut Vec<T>, op: &VOp) -> Res {
+pub fn apply_s<T: El>(v: &mut Vec<T>, op: &VOp, sboxes: &mut Vec<Box<[T]>>) -> Res {
     match op {
         VOp::Push(k) => {
             v.push(T::mk(*k));
@@ -999,7 +1011,10 @@ pub fn apply_s<T: El>(v: &mut Vec<T>, op: &VOp) -> Res {
             let old = std::mem::take(v);
             let bx = old.into_boxed_slice();
             let ks = keys_of(&bx);
-            drop(bx);
+            sboxes.push(bx);
+            if sboxes.len() > KEPT_BOXES {
+                drop(sboxes.remove(0));
+            }
             Res::Keys(ks)
         }
         VOp::FromIterIn(ks) => {
@@ -1243,15 +1258,15 @@ pub struct Pair<'b, T: El> {
     pub b: &'b Bump,
     pub bv: BVec<'b, T>,
     pub sv: Vec<T>,
-    /// leaked bump slices (into_bump_slice): contents must stay intact for the arena's lifetime
-    pub slices: Vec<(*const T, usize, Vec<u32>)>,
+    pub kept: Kept<'b, T>,
+    pub sboxes: Vec<Box<[T]>>,
     pub ops: u64,
     pub panics: u64,
 }
 
 impl<'b, T: El> Pair<'b, T> {
     pub fn new(b: &'b Bump) -> Self {
-        Pair { b, bv: BVec::new_in(b), sv: Vec::new(), slices: Vec::new(), ops: 0, panics: 0 }
+        Pair { b, bv: BVec::new_in(b), sv: Vec::new(), kept: Kept { slices: Vec::new(), boxes: Vec::new() }, sboxes: Vec::new(), ops: 0, panics: 0 }
     }
 
     pub fn run_op(&mut self, rep: &mut Report, op: &VOp, check_drops: bool) {
@@ -1261,26 +1276,31 @@ impl<'b, T: El> Pair<'b, T> {
     /// `clone_fuse`: make the k-th `Clone::clone` call inside the op panic, on both sides alike
     /// (only used for the Clone-driven ops, whose unwinding behaviour std documents: elements
     /// cloned so far are kept).
-    pub fn run_op_fused(&mut self, rep: &mut Report, op: &VOp, check_drops: bool, clone_fuse: Option<u64>) {
+    pub fn run_op_fused(&mut self, rep: &mut Report, op: &VOp, check_drops: bool, fuse: Option<(u8, u64)>) {
+        let clone_fuse = match fuse {
+            Some((k, n)) if k == ledger::F_CLONE => Some(n),
+            _ => None,
+        };
         let name = op.name();
         let mark = ledger::log_len();
         ledger::set_side(1);
-        if let Some(k) = clone_fuse {
-            ledger::arm(ledger::F_CLONE, k);
+        if let Some((kind, k)) = fuse {
+            ledger::arm(kind, k);
         }
         let b = self.b;
         let bv = &mut self.bv;
-        let slices = &mut self.slices;
-        let rb = catch_unwind(AssertUnwindSafe(|| apply_b::<T>(b, bv, op, slices)));
+        let kept = &mut self.kept;
+        let rb = catch_unwind(AssertUnwindSafe(|| apply_b::<T>(b, bv, op, kept)));
         let msg_b = if rb.is_err() { last_panic() } else { String::new() };
         ledger::set_side(2);
-        if let Some(k) = clone_fuse {
-            ledger::arm(ledger::F_CLONE, k);
+        if let Some((kind, k)) = fuse {
+            ledger::arm(kind, k);
         }
         let rs = {
             let _p = halloc::pause();
             let sv = &mut self.sv;
-            catch_unwind(AssertUnwindSafe(|| apply_s::<T>(sv, op)))
+            let sboxes = &mut self.sboxes;
+            catch_unwind(AssertUnwindSafe(|| apply_s::<T>(sv, op, sboxes)))
         };
         let msg_s = if rs.is_err() { last_panic() } else { String::new() };
         ledger::disarm();
@@ -1288,6 +1308,9 @@ impl<'b, T: El> Pair<'b, T> {
         let check_drops = check_drops && !(clone_fuse.is_some() && rb.is_err());
         if clone_fuse.is_some() && rb.is_err() && rs.is_err() {
             rep.bump("c13.clone_panics_on_both_sides");
+        }
+        if fuse.is_some() && clone_fuse.is_none() && rb.is_err() && rs.is_err() {
+            rep.bump("c13.iterator_panics_on_both_sides");
         }
         if let VOp::IoWrite(bytes) = op {
             ledger::set_side(1);
@@ -1391,7 +1414,19 @@ impl<'b, T: El> Pair<'b, T> {
             }
         }
         // leaked slices stay intact and are never dropped
-        for (p, n, ks) in &self.slices {
+        for (bx, ks) in &self.kept.boxes {
+            if keys_of(bx) != *ks {
+                rep.violate("C13", format!("C13/vec<{}>/into_boxed_slice/live-box-changed-after-{}", T::NAME, name), format!("now {:?}, was {:?}", keys_of(bx), ks));
+                rep.violate("C02", "C02/into_boxed_slice/contents-of-the-live-box-changed-by-a-later-operation", format!("vec<{}> after {}", T::NAME, name));
+            }
+            if T::TRACKED && bx.iter().any(|x| !x.live_ok()) {
+                rep.violate("C15", "C15/vec/into_boxed_slice/destructor-ran-on-an-element-of-a-live-box", format!("after {}", name));
+            }
+        }
+        if !self.kept.boxes.is_empty() {
+            rep.bump("c02.live_boxed_slices_rechecked");
+        }
+        for (p, n, ks) in &self.kept.slices {
             let s = unsafe { std::slice::from_raw_parts(*p, *n) };
             if keys_of(s) != *ks {
                 rep.violate("C13", format!("C13/vec<{}>/into_bump_slice/leaked-slice-changed-after-{}", T::NAME, name), String::new());
@@ -1405,12 +1440,15 @@ impl<'b, T: El> Pair<'b, T> {
 
     /// drop both containers; for tracked elements everything except intentional leaks is gone
     pub fn finish(self, rep: &mut Report) {
-        let Pair { bv, sv, slices, .. } = self;
+        let Pair { bv, sv, kept, sboxes, .. } = self;
+        let Kept { slices, boxes } = kept;
         let mark = ledger::log_len();
         drop(bv);
+        drop(boxes);
         {
             let _p = halloc::pause();
             drop(sv);
+            drop(sboxes);
         }
         if T::TRACKED {
             let (db, ds) = ledger::dropped_keys_since(mark);
